@@ -192,14 +192,32 @@ def mutate(case, kind, pick):
             return None
         i, nd = pick(js)
         if len(nd["on"]) >= 2:
-            nd["on"] = nd["on"][:-1] if pick([True, False]) else list(reversed(nd["on"]))
+            how = pick(["drop", "reverse", "repair"])
+            if how == "drop":
+                nd["on"] = nd["on"][:-1]
+            elif how == "reverse":
+                nd["on"] = list(reversed(nd["on"]))
+            else:  # same left keys, same right keys, paired the other way round
+                (a1, b1), (a2, b2) = nd["on"][0], nd["on"][1]
+                sb = sch[nd["b"]]
+                if sb.cols[b1]["type"] != sb.cols[b2]["type"]:
+                    nd["on"] = list(reversed(nd["on"]))
+                else:
+                    nd["on"] = [[a1, b2], [a2, b1]] + nd["on"][2:]
             return c
         sa, sb = sch[nd["a"]], sch[nd["b"]]
         a0, b0 = nd["on"][0]
-        alts = [n for n in sa.names() if n in sb.cols and n != a0 and sa.cols[n]["type"] == sb.cols[n]["type"] and sa.cols[n]["type"] != "bool" and not sa.cols[n]["zn"] and not sb.cols[n]["zn"]]
+        alts = [n for n in sa.names() if n in sb.cols and n != a0 and n != b0 and sa.cols[n]["type"] == sb.cols[n]["type"] and sa.cols[n]["type"] != "bool" and not sa.cols[n]["zn"] and not sb.cols[n]["zn"]]
         if not alts:
             return None
         k = pick(alts)
+        if pick([True, False]):
+            # a second key pair added to BOTH members, listed in the two possible orders
+            p2 = spec.clone(c)
+            p2["nodes"][i]["on"] = [[a0, b0], [k, k]]
+            nd["on"] = [[k, k], [a0, b0]]
+            c["_pair_p"] = p2
+            return c
         nd["on"] = [[k, k]]
         return c
     if kind == "reverse":
